@@ -89,9 +89,11 @@ CHECKS = {
              "index), maps (an unparsable key makes the call fail whatever the error type answers). Sets and maps as values: (c06_set_value, c06_map_value, through the C02 refinement) a successful set is "
              "the de-duplication of its element values - only elements of the list, none equal to one kept before, every element kept or equal to a kept one (c06_set_members/_distinct/_covers) - and "
              "a successful map is the fold of map_insert over the members in payload order, map_insert being a finite-map update (c06_map_insert_same/_other: the last member with a given parsed key wins). "
-             "CS lists: correspondence + reference-interpreter monitor.",
+             "CS lists (c06_cs_*): for every string the segments joined with commas are the text, none contains a comma and that determines them; only empty segments are dropped; the list succeeds exactly "
+             "when every non-empty segment parses, with the parsed segments in order, and fails with the error of the first one that does not (any script/state); integer keys and elements "
+             "(c06_key_int_sound/_canonical) parse only into the target's domain, and the canonical decimal text of every value of the domain parses to it.",
         ref="5 C06", technique="Coq theorems by unfolding/induction on the element list + Leaves invariant; in-Coq differential check + Spec.v monitor",
-        note="Trusted: as C01. Partial: comma-separated lists (split/parse modelled, tied by correspondence); set/map value theorems are for the keep-going error type. No axioms."),
+        note="Trusted: as C01. That split_comma / parse_int are str::split(',') / FromStr of the std integers is tied by correspondence; set/map value theorems are for the keep-going error type. No axioms."),
     "C09": dict(
         text="Proof: (c09_ignored) without deny_unknown_fields the run on a payload equals, for every script and state, result and calls, the run on the payload with all unknown-key "
              "members removed; (c09_denied_step) with it, a member whose key matches no field is reported as UnknownKey with the accepted-key list at the container's location and the loop "
